@@ -17,10 +17,16 @@ Definition check_614 (fs : list field) : verdict :=
     if st =? 3 then VBad 3 [] else
     (* what the implementation built is at most linear in the input, whatever the model says *)
     if (st =? 0) && (nodes >? zlen bs + 1) then VBad 4 [FZ (zlen bs + 1)] else
-    match load (negb (rec =? 0)) (negb (ns =? 0)) t bs with
-    | Some tr =>
-      if st =? 0 then (if nodes =? tree_count tr then VOk else VDrift 4) else VDrift 1
-    | None => expect 2 (negb (st =? 0)) [FZ 1]
+    (* the bounded skip first: a buffer that does not hold one complete value must be refused; and only after it has
+       validated every length prefix is the load model run (its string reads convert the length to nat) *)
+    match skip_go t bs with
+    | None => expect 5 (negb (st =? 0)) [FZ 1]
+    | Some _ =>
+      match load (negb (rec =? 0)) (negb (ns =? 0)) t bs with
+      | Some tr =>
+        if st =? 0 then (if nodes =? tree_count tr then VOk else VDrift 4) else VDrift 1
+      | None => expect 2 (negb (st =? 0)) [FZ 1]
+      end
     end
   | _ => VBad 99 []
   end.
